@@ -51,12 +51,107 @@ def mapE {α β ε : Type} (f : α → Except ε β) : List α → Except ε (Li
       | .error e => .error e
       | .ok ys => .ok (y :: ys)
 
+/-! ## Scalars: the heterogeneous value domain
+
+A column entry / a `replace_mask_false_with` value is a Python scalar of one of five kinds.  The kinds
+matter because `apply_mask` hands array-likes to numpy (`np.where`, `np.asarray`), which works on ONE
+dtype per array: an implementation that casts the replacement value INTO the column's dtype
+(`result[~mask] = v`) writes something else than `v` (0.5 → 0 in an int column, → True in a bool column,
+`'<pad>'` → `'<'` in a `<U1` column); `np.where` promotes both operands to a common dtype instead.
+Numeric promotion (bool → int → float) preserves the VALUE (Python `==`) and is not represented:
+numeric scalars keep their kind and are compared through `Scalar.canon`.  Promotion to a *string*
+dtype does change values (`1` → `'1'`) and IS represented (`Scalar.toStr`, finding
+F-C02-replace-str-promote). -/
+
+/-- a Python scalar.  `flt m e` is the float `m · 10^(-e)` (NaN / inf are not modelled). -/
+inductive Scalar where
+  | int (i : Int)
+  | flt (m : Int) (e : Nat)
+  | str (s : String)
+  | bool (b : Bool)
+  | none
+  deriving DecidableEq, Repr, Inhabited
+
+instance : Coe Int Scalar := ⟨Scalar.int⟩
+instance {n : Nat} : OfNat Scalar n := ⟨Scalar.int n⟩
+
+/-- strip trailing decimal zeros; an integer-valued decimal becomes the int (`1.0 == 1`) -/
+def normDec (m : Int) : Nat → Scalar
+  | 0 => .int m
+  | e + 1 => if m % 10 = 0 then normDec (m / 10) e else .flt m (e + 1)
+
+/-- the representative of a scalar under Python `==` / `hash` (`True == 1 == 1.0`) -/
+def Scalar.canon : Scalar → Scalar
+  | .bool b => .int (if b then 1 else 0)
+  | .flt m e => normDec m e
+  | s => s
+
+/-- numpy dtype kinds -/
+inductive DType where
+  | bool | int | flt | str | obj
+  deriving DecidableEq, Repr, Inhabited
+
+def Scalar.dtype : Scalar → DType
+  | .int _ => .int
+  | .flt _ _ => .flt
+  | .str _ => .str
+  | .bool _ => .bool
+  | .none => .obj
+
+/-- the dtype `np.asarray` infers for two Python scalars in one list: `None` forces `object`, a string
+absorbs numbers (`np.asarray([1, 'a'])` is `<U21`), else the numeric join -/
+def DType.infer : DType → DType → DType
+  | .obj, _ | _, .obj => .obj
+  | .str, _ | _, .str => .str
+  | .flt, _ | _, .flt => .flt
+  | .int, _ | _, .int => .int
+  | .bool, .bool => .bool
+
+/-- dtype of `np.asarray(list of scalars)` (the empty array is `float64`) -/
+def inferDType : List Scalar → DType
+  | [] => .flt
+  | s :: rest => rest.foldl (fun d x => d.infer x.dtype) s.dtype
+
+/-- result dtype of `np.where(mask, column, r)` for a column of dtype `c` and a Python scalar of dtype
+`r`; `none` = `DTypePromotionError` (a string column and an int / float scalar).  Observed on numpy 2.x:
+a numeric or bool column with a `str` scalar is a string array, a string column with a `bool` too. -/
+def DType.promote (c r : DType) : Option DType :=
+  match c, r with
+  | .obj, _ | _, .obj => some .obj
+  | .str, .str | .str, .bool => some .str
+  | .str, _ => none
+  | _, .str => some .str
+  | a, b => some (a.infer b)
+
+def natDigits (n pad : Nat) : String :=
+  let s := toString n
+  String.ofList (List.replicate (pad - s.length) (Char.ofNat 48)) ++ s
+
+/-- numpy's conversion of a number to a string dtype (`str(np.int64(1))`, `'True'`, `repr` of a short
+decimal float) -/
+def pyStr : Scalar → String
+  | .int i => toString i
+  | .bool b => if b then "True" else "False"
+  | .flt m 0 => toString m ++ ".0"
+  | .flt m e =>
+    let a := m.natAbs
+    (if m < 0 then "-" else "") ++ toString (a / 10 ^ e) ++ "." ++ natDigits (a % 10 ^ e) e
+  | .str s => s
+  | .none => "None"
+
+/-- a scalar as an element of a string array -/
+def Scalar.toStr : Scalar → Scalar
+  | .str s => .str s
+  | .none => .none
+  | s => .str (pyStr s)
+
 /-! ## Values and masks -/
 
 /-- A value inside a batch.  `seq arr xs` is an array-like: a numpy array (`arr = true`; the elements
-of a multi-dimensional array are arrays again) or a `list` / `tuple` (`arr = false`). -/
+of a multi-dimensional array are arrays again) or a `list` / `tuple` (`arr = false`).  Python `None`
+is `null` (never `leaf .none`: scalars enter values through `Scalar.toVal`). -/
 inductive Val where
-  | leaf (v : Int)
+  | leaf (v : Scalar)
   | null
   | seq (arr : Bool) (xs : List Val)
   | map (kvs : List (String × Val))
@@ -77,17 +172,49 @@ inductive TopMask where
   | gen (m : Mask)
   deriving Repr, Inhabited
 
+/-- a scalar as a value (`None` is `null`) -/
+def Scalar.toVal : Scalar → Val
+  | .none => .null
+  | s => .leaf s
+
 mutual
 /-- every scalar under the value becomes `r` (a row of `np.where(mask[:, None, ..], items, r)`) -/
-def Val.fill (r : Int) : Val → Val
-  | .leaf _ => .leaf r
-  | .null => .leaf r
+def Val.fill (r : Scalar) : Val → Val
+  | .leaf _ => r.toVal
+  | .null => r.toVal
   | .seq arr xs => .seq arr (fillList r xs)
   | .map kvs => .map kvs
-def fillList (r : Int) : List Val → List Val
+def fillList (r : Scalar) : List Val → List Val
   | [] => []
   | x :: xs => Val.fill r x :: fillList r xs
 end
+
+mutual
+/-- the scalars under an array-like, in order (`None` included; dicts contribute nothing) -/
+def Val.scalars : Val → List Scalar
+  | .leaf s => [s]
+  | .null => [.none]
+  | .seq _ xs => scalarsList xs
+  | .map _ => []
+def scalarsList : List Val → List Scalar
+  | [] => []
+  | x :: xs => Val.scalars x ++ scalarsList xs
+end
+
+mutual
+/-- every scalar converted to the string dtype -/
+def Val.strfy : Val → Val
+  | .leaf s => .leaf s.toStr
+  | .null => .null
+  | .seq arr xs => .seq arr (strfyList xs)
+  | .map kvs => .map kvs
+def strfyList : List Val → List Val
+  | [] => []
+  | x :: xs => Val.strfy x :: strfyList xs
+end
+
+/-- the elements of an array of dtype `dt` built from `xs`: only a string dtype changes values -/
+def npCast (dt : DType) (xs : List Val) : List Val := if dt = .str then strfyList xs else xs
 
 mutual
 /-- the shape `np.asarray` gives the value; `none` when it raises (ragged / mixed nesting) -/
@@ -123,26 +250,33 @@ def replBits {α : Type} (r : α → α) : List Bool → List α → List α
 /-- tree.py:135-139 (numpy `bool` mask on an array-like): `np.asarray(items)[masks]`, resp.
 `np.where(masks[:, None, ...], items, replace_false_with)` (the mask selects along the leading
 axis in both modes — after the repair of finding F-C02-where).  A length mismatch is an
-`IndexError` / broadcast `ValueError` (numpy's broadcasting of length-1 operands is outside the model). -/
-def applyNp (repl : Option Int) (bits : List Bool) (xs : List Val) : Except ErrKind Val :=
+`IndexError` / broadcast `ValueError` (numpy's broadcasting of length-1 operands is outside the model).
+`np.where` promotes the column and the replacement to a common dtype (`DType.promote`): the replaced
+entries are exactly `r` and the kept ones untouched unless that dtype is a string dtype and one side is
+not a string.  The column's dtype is the one `np.asarray` infers from its content (an `object` ndarray
+without a `None`, and a list mixing strings and numbers without a `None`, are outside the model). -/
+def applyNp (repl : Option Scalar) (bits : List Bool) (xs : List Val) : Except ErrKind Val :=
   match (Val.seq true xs).shape? with
   | none => .error .value
   | some _ =>
     if bits.length ≠ xs.length then .error (if repl.isSome then .value else .index)
     else match repl with
       | none => .ok (.seq true (filterBits bits xs))
-      | some r => .ok (.seq true (replBits (Val.fill r) bits xs))
+      | some r =>
+        match (inferDType (scalarsList xs)).promote r.dtype with
+        | none => .error .type                                   -- DTypePromotionError
+        | some dt => .ok (.seq true (npCast dt (replBits (Val.fill r) bits xs)))
 
 mutual
 /-- tree.py:181-189: an array mask applied to a `dict`: every (ndarray) leaf is masked -/
-def bcastNp (repl : Option Int) (bits : List Bool) : Val → Except ErrKind Val
+def bcastNp (repl : Option Scalar) (bits : List Bool) : Val → Except ErrKind Val
   | .map kvs =>
     match bcastNpKvs repl bits kvs with
     | .error e => .error e
     | .ok r => .ok (.map r)
   | .seq true xs => applyNp repl bits xs          -- an ndarray leaf
   | _ => .error .type                             -- a list inside the dict is descended to its scalars: TypeError
-def bcastNpKvs (repl : Option Int) (bits : List Bool) :
+def bcastNpKvs (repl : Option Scalar) (bits : List Bool) :
     List (String × Val) → Except ErrKind (List (String × Val))
   | [] => .ok []
   | (k, v) :: rest =>
@@ -154,18 +288,19 @@ def bcastNpKvs (repl : Option Int) (bits : List Bool) :
       | .ok r => .ok ((k, v') :: r)
 end
 
-/-- tree.py:155-162: the element-wise result keeps the container kind; for an ndarray that is
-`np.asarray(result)`, which raises on a ragged result -/
+/-- tree.py:155-162: the element-wise result keeps the container kind (a list stays a list of exactly the
+appended objects); for an ndarray that is `np.asarray(result)`, which raises on a ragged result and
+infers ONE dtype for the kept elements and the appended replacement values -/
 def rewrap (arr : Bool) (ys : List Val) : Except ErrKind Val :=
   if arr then
     match (Val.seq true ys).shape? with
     | none => .error .value
-    | some _ => .ok (.seq true ys)
+    | some _ => .ok (.seq true (npCast (inferDType (scalarsList ys)) ys))   -- dtype inferred from the elements
   else .ok (.seq false ys)
 
 mutual
 /-- tree.py:108-195 `apply_mask(items, masks=m, replace_false_with=repl)` for Python-level masks -/
-def applyMask (repl : Option Int) : Val → Mask → Except ErrKind Val
+def applyMask (repl : Option Scalar) : Val → Mask → Except ErrKind Val
   | x, .tt => .ok x                                                   -- :131 `masks == True`
   | .seq arr xs, .seq ms =>                                           -- :134, 140-162
     match applySeq repl xs ms with
@@ -176,13 +311,13 @@ def applyMask (repl : Option Int) : Val → Mask → Except ErrKind Val
   | _, _ => .error .type                                              -- :190-194
 termination_by x m => (sizeOf m, sizeOf x)
 /-- the element-wise loop tree.py:141-154 (`zip(items, masks, strict=True)`) -/
-def applySeq (repl : Option Int) : List Val → List Mask → Except ErrKind (List Val)
+def applySeq (repl : Option Scalar) : List Val → List Mask → Except ErrKind (List Val)
   | [], [] => .ok []
   | x :: xs, .tt :: ms => (applySeq repl xs ms).map (x :: ·)
   | _ :: xs, .ff :: ms =>
     match repl with
     | none => applySeq repl xs ms
-    | some r => (applySeq repl xs ms).map (Val.leaf r :: ·)
+    | some r => (applySeq repl xs ms).map (r.toVal :: ·)
   | x :: xs, m :: ms =>
     match applyMask repl x m with
     | .error e => .error e
@@ -190,21 +325,21 @@ def applySeq (repl : Option Int) : List Val → List Mask → Except ErrKind (Li
   | _, _ => .error .value
 termination_by xs ms => (sizeOf ms, sizeOf xs)
 /-- the dict loop tree.py:165-177: one entry per *mask* key, `items.get(key)` for the value -/
-def applyMap (repl : Option Int) (kvs : List (String × Val)) :
+def applyMap (repl : Option Scalar) (kvs : List (String × Val)) :
     List (String × Mask) → Except ErrKind (List (String × Val))
   | [] => .ok []
   | (k, .tt) :: rest => (applyMap repl kvs rest).map ((k, (lookupKey k kvs).getD .null) :: ·)
   | (k, .ff) :: rest =>
     match repl with
     | none => applyMap repl kvs rest
-    | some r => (applyMap repl kvs rest).map ((k, Val.leaf r) :: ·)
+    | some r => (applyMap repl kvs rest).map ((k, r.toVal) :: ·)
   | (k, m) :: rest =>
     match applyMask repl ((lookupKey k kvs).getD .null) m with
     | .error e => .error e
     | .ok y => (applyMap repl kvs rest).map ((k, y) :: ·)
 termination_by mkvs => (sizeOf mkvs, sizeOf kvs)
 /-- tree.py:181-189 with a list mask: the mask is applied to every leaf of the dict -/
-def bcastKvs (repl : Option Int) : List (String × Val) → List Mask →
+def bcastKvs (repl : Option Scalar) : List (String × Val) → List Mask →
     Except ErrKind (List (String × Val))
   | [], _ => .ok []
   | (k, .seq true xs) :: rest, ms =>                 -- an ndarray leaf
@@ -223,7 +358,7 @@ termination_by kvs ms => (sizeOf ms, sizeOf kvs)
 end
 
 /-- `apply_mask` for one entry of the `masks` tuple -/
-def applyTop (repl : Option Int) (x : Val) : TopMask → Except ErrKind Val
+def applyTop (repl : Option Scalar) (x : Val) : TopMask → Except ErrKind Val
   | .gen m => applyMask repl x m
   | .np bits =>
     match x with
@@ -236,7 +371,7 @@ def applyTop (repl : Option Int) (x : Val) : TopMask → Except ErrKind Val
 
 /-- `TreeFn._get_inputs` / `_apply_masks` (tree_fns.py:159-173, 193-199): no masks → untouched;
 one mask → applied to every input; otherwise `zip(items, masks, strict=True)`. -/
-def applyMasks (repl : Option Int) (args : List Val) : List TopMask → Except ErrKind (List Val)
+def applyMasks (repl : Option Scalar) (args : List Val) : List TopMask → Except ErrKind (List Val)
   | [] => .ok args
   | [m] => mapE (fun x => applyTop repl x m) args
   | ms =>
@@ -263,9 +398,10 @@ structure MetricKey where
 /-- A batch handed to `update_state`: a `dict` of columns. -/
 abbrev Batch := List (String × Val)
 
-/-- a feature value must be hashable to key `mask_by_slice` (tree_fns.py:450-455); scalars are -/
+/-- a feature value must be hashable to key `mask_by_slice` (tree_fns.py:450-455); scalars are.
+Slice values are ints in this model: a non-int scalar feature (hashable in Python) is outside it. -/
 def Val.asKey : Val → Except ErrKind Int
-  | .leaf v => .ok v
+  | .leaf (.int v) => .ok v
   | _ => .error .type
 
 /-- `_default_slice_fn` without `within_values` (tree_fns.py:430-432): the row itself is the slice -/
@@ -295,8 +431,8 @@ structure Slicer where
   name : List String
   keys : List String
   fn : SliceFn
-  /-- `replace_mask_false_with` (`none` = `DEFAULT_FILTER`) -/
-  replace : Option Int := none
+  /-- `replace_mask_false_with` (`none` = `DEFAULT_FILTER`; Python `None` is `some .none`) -/
+  replace : Option Scalar := none
 
 /-- `zip(*inputs)` (tree_fns.py:444): rows of the feature columns, as long as the shortest -/
 def zipRows : List (List Val) → List (List Val)
@@ -378,7 +514,7 @@ def Agg.inputs (a : Agg X S Rv) (b : Batch) : Except ErrKind (List Val) :=
 
 /-- The rows one `TreeAggregateFn.update_state(state, inputs)` call adds under `masks`
 (tree_fns.py:530-547): select, mask, hand to the aggregate.  Every exception is re-raised as `ValueError`. -/
-def Agg.feed (a : Agg X S Rv) (masks : List TopMask) (repl : Option Int) (b : Batch) :
+def Agg.feed (a : Agg X S Rv) (masks : List TopMask) (repl : Option Scalar) (b : Batch) :
     Except ErrKind (List X) :=
   match a.inputs b with
   | .error _ => .error .value
